@@ -29,7 +29,7 @@ class Query:
     def __init__(self, name, src, entry, defines=None, unwind=None, unwindset=None, replace=None,
                  safety=True, extra=None, backends=("cadical", "minisat"), timeout=600, mem_gb=8,
                  big_endian=False, isr=None, includes=None, replay=True, desc="", bounds=None,
-                 unwind_fail_is_violation=False, no_std_checks=False, expect_witness=True, remove_bodies=None, safety_for=("C01", "C18")):
+                 unwind_fail_is_violation=False, no_std_checks=False, expect_witness=True, remove_bodies=None, safety_for=("C01", "C18"), split=0):
         self.name = name; self.src = src; self.entry = entry
         self.defines = list(defines or []); self.unwind = unwind; self.unwindset = list(unwindset or [])
         self.replace = dict(replace or {}); self.safety = safety; self.extra = list(extra or [])
@@ -41,6 +41,7 @@ class Query:
         self.expect_witness = expect_witness
         self.remove_bodies = list(remove_bodies or [])
         self.safety_for = tuple(safety_for)
+        self.split = split
 
 
 class QResult:
@@ -214,6 +215,71 @@ def solve(q, gb, bdir, backends=None, extra=None):
     return box
 
 
+def list_properties(q, gb, bdir):
+    cmd = cbmc_cmd(q, gb, q.backends[0], ["--show-properties"])
+    r = run(cmd, cwd=bdir)
+    try:
+        data = json.loads(r.stdout)
+    except Exception:
+        raise RuntimeError("cannot list properties of %s: %s" % (q.name, r.stdout[-500:] + r.stderr[-500:]))
+    for el in data:
+        if isinstance(el, dict) and "properties" in el:
+            return el["properties"]
+    return []
+
+
+def solve_split(q, gb, bdir):
+    """Property-parallel solving: the joint query of some harnesses exhausts memory although every
+    property's own cone of influence is small. Each group of properties is one cbmc run
+    (--property ...), same flags and bounds; results are merged."""
+    props = list_properties(q, gb, bdir)
+    names = [p["name"] for p in props]
+    groups = []
+    cur = []
+    for p in props:
+        cls = p.get("class", "")
+        if cls == "assertion":
+            groups.append([p["name"]])
+        else:
+            cur.append(p["name"])
+            if len(cur) >= max(q.split, 1) * 8:
+                groups.append(cur); cur = []
+    if cur:
+        groups.append(cur)
+    merged = []; notes = []; tot_rt = 0.0; max_rss = 0; lock = threading.Lock(); used = set()
+    t0 = time.time()
+
+    def work(idx_grp):
+        idx, grp = idx_grp
+        gdir = os.path.join(bdir, "g%d" % idx)
+        os.makedirs(gdir, exist_ok=True)
+        extra = []
+        for n in grp:
+            extra += ["--property", n]
+        b = solve(q, gb, gdir, extra=extra)
+        return grp, b
+
+    with ThreadPoolExecutor(max_workers=NCPU) as ex:
+        for grp, b in ex.map(work, list(enumerate(groups))):
+            if "res" not in b:
+                notes.append("group %s...: %s" % (grp[0], "; ".join(b.get("notes", ["no verdict"]))[:300]))
+                continue
+            backend, results, runtime, dt, rss = b["res"]
+            used.add(backend)
+            tot_rt += runtime or 0.0
+            max_rss = max(max_rss, rss or 0)
+            want = set(grp)
+            for p in results:
+                if p.get("property") in want:
+                    merged.append(p)
+    box = {}
+    if notes:
+        box["notes"] = notes
+        return box
+    box["res"] = ("+".join(sorted(used)) + "/split%d" % len(groups), merged, tot_rt, time.time() - t0, max_rss)
+    return box
+
+
 def classify_prop(p):
     """-> (kind, label). kind in witness/unwind/assert/safety"""
     name = p.get("property", ""); desc = p.get("description", "")
@@ -249,7 +315,10 @@ def run_query(q, workdir):
     except Exception as e:
         res.status = "build_error"; res.error = str(e); res.wall = time.time() - t0
         return res
-    box = solve(q, gb, bdir)
+    if q.split:
+        box = solve_split(q, gb, bdir)
+    else:
+        box = solve(q, gb, bdir)
     res.wall = time.time() - t0
     if "res" not in box:
         res.status = "inconclusive"; res.error = "; ".join(box.get("notes", ["no verdict"]))
